@@ -213,9 +213,13 @@ def mVariant (mp : Nat) : Ranges â†’ Option Nat
   | (_, e0) :: (b1, _) :: _ =>
     if ((e0 + 1) % 2 ^ 32) / mp â‰  ((b1 + 2 ^ 32 - 1) % 2 ^ 32) / mp then some (e0 + 1) else none
 
-/-- what one call of `coap_request_missing_q_block2` asks for: the Q-Block2 options (NUM, M) of the one request it sends
-(`[]`: none is sent) and the new `processing_payload_set` (`none`: unchanged). -/
-def reqMissingQ2 (mp : Nat) (useM : Bool) (rs : Ranges) (szx totalLen : Nat) : List (Nat Ã— Nat) Ã— Option Nat :=
+/-- `size_t total_len = lg_crcv->total_len; if (total_len > (0x100000 << (szx + 4))) total_len = 0x100000 << (szx + 4);`
+(fix for finding c02-qblock2-num-2e20: the NUM of a Q-Block2 option has 20 bits) -/
+def q2ClampLen (szx totalLen : Nat) : Nat :=
+  if totalLen > 2 ^ 20 * 2 ^ (szx + 4) then 2 ^ 20 * 2 ^ (szx + 4) else totalLen
+
+/-- `coap_request_missing_q_block2` behind the clamp: `totalLen` is the local `total_len` -/
+def reqMissingQ2At (mp : Nat) (useM : Bool) (rs : Ranges) (szx totalLen : Nat) : List (Nat Ã— Nat) Ã— Option Nat :=
   let bs := 2 ^ (szx + 4)
   let viaM : Option Nat := if useM then mVariant mp rs else none
   let mOk : Option Nat := match viaM with
@@ -232,6 +236,11 @@ def reqMissingQ2 (mp : Nat) (useM : Bool) (rs : Ranges) (szx totalLen : Nat) : L
       (t.2.map (fun n => (n, 0)), some s)
     else
       (g.2.2.map (fun n => (n, 0)), g.2.1)
+
+/-- what one call of `coap_request_missing_q_block2` asks for: the Q-Block2 options (NUM, M) of the one request it sends
+(`[]`: none is sent) and the new `processing_payload_set` (`none`: unchanged). -/
+def reqMissingQ2 (mp : Nat) (useM : Bool) (rs : Ranges) (szx totalLen : Nat) : List (Nat Ã— Nat) Ã— Option Nat :=
+  reqMissingQ2At mp useM rs szx (q2ClampLen szx totalLen)
 
 /-- the `while (block_pdu)` loop of `coap_send_q_blocks` for a Non-confirmable message on a datagram transport: `num` is the
 block sent before; lists (NUM, M) of the blocks sent.  `coap_add_block` refusing (`len <= start`) ends it. -/
@@ -364,6 +373,7 @@ def q2Decide (mp : Nat) (useM isNon : Bool) (st : Q2State) (m : Nat) : Q2State Ã
         let rq := reqMissingQ2 mp useM st1.rs st1.szx st1.totalLen
         ({ st1 with processing := (match rq.2 with | some s => s | none => st1.processing) }, (if rq.1 â‰  [] then [rq.1] else []), .skip)
       else if !isNon then (st1, [], .skip)
+      else if num â‰¥ 0xFFFFF then (st1, [], .skip)   -- no NUM follows 0xFFFFF (fix for c02-qblock2-num-2e20)
       else (st1, [[(num + 1, 1)]], .next)
     else (st, [], .skip)
   else if !checkAllBlocksIn st.rs nb then (st, [], .skip)
